@@ -379,5 +379,7 @@ def run(ctx, rep):
         rep.ob("R15.6", "%s: set_expiry receives seconds, not a pre-built deadline" % (fu_.qual.split(".", 2)[-1] if fu_ else "?"),
                not bad_, "`%s`" % A.norm(c_)[:60], ctx.loc(c_), kind="site", nontrivial=False)
     K.share(ctx, rep, "c14", lambda o: o.rule == "R14.2", "R15.6", floor=3)
+    # "the connection's configured timeout" is what the caller configured: the constructor applies the caller's values as given
+    K.share(ctx, rep, "c06", lambda o: o.rule == "R06.9", "R15.6", floor=1)
     from . import hygiene as H
     H.private_state(ctx, rep, "R15.3", "rpyc.core.async_.AsyncResult")
